@@ -660,6 +660,13 @@ def rule_B1(ctx, F):
     ok = len(okr) == 1 and has_guard(okr[0][0], P.bin("Eq", N, P.const(0)), True) is not None
     ctx.ob(ok, "checkfile-ends-at-eof-only", cf.loc, "Ok(()) returned only on read_line == 0: %s" % ok)
     ctx.ob(len(col) == 1 and "line" in show(col[0][1]) and col[0][1][2][1] == ("arg", 2, "args"), "line-passed-to-check", cf.loc, "check_one_line(&line, args)")
+    # a check line is read WHOLE: read_line is called on the BufReader over the input itself, not on a length-limiting adapter
+    # (the writer prints lines of any length: an escaped path can be twice as long as the path)
+    rls = [(bi, val(cf.expr_call(t))) for bi, t in cf.calls() if norm_path(callee_name(t["callee"])).endswith("read_line")]
+    news = [val(cf.expr_call(t)) for bi, t in cf.calls() if norm_path(callee_name(t["callee"])).endswith("BufReader::<R>::new")]
+    caps = [show(val(cf.expr_call(t)))[:60] for bi, t in cf.calls() if norm_path(callee_name(t["callee"])).rsplit("::", 1)[-1] in ("take", "read_until", "take_while")]
+    okw = bool(rls) and not caps and all("take(" not in show(e) and "Take" not in show(e) for b_, e in rls)
+    ctx.ob(okw, "checkfile-lines-read-whole", cf.loc, "read_line on the buffered input itself; length-limiting adapters in the function: %s" % (caps or "none"))
 
 
 def rule_B2(ctx, F):
